@@ -66,6 +66,21 @@ def mems_of(x):
     return graph_arrays(d)
 
 
+def coord_arrays(x):
+    """ndarrays behind the non-index coordinates (scalar and auxiliary ones) of an xarray object"""
+    out = []
+    for k in x.coords:
+        if k in x.dims:
+            continue
+        try:
+            v = x.coords[k].values
+            if isinstance(v, np.ndarray) and v.dtype.kind in "iufb":
+                out.append(v)
+        except Exception:
+            pass
+    return out
+
+
 def snap(name, x, heap, mems=None):
     """observable record of a store object (mems: fixed backing arrays of a dask object, else derived)"""
     if isinstance(x, xr.Dataset):
@@ -77,17 +92,18 @@ def snap(name, x, heap, mems=None):
                 "val": A._h("|".join(vals).encode()), "dtype": ",".join(str(x[k].dtype) for k in x.data_vars),
                 "coords": A.coords_pairs(x), "attrs": attrs, "dims": [str(d) for d in x.dims],
                 "shape": [int(x.sizes[d]) for d in x.dims], "backend": A.backend_of(x[list(x.data_vars)[0]].data),
-                "name": ""}
+                "name": "", "cbufs": sorted({heap.bid(m) for m in coord_arrays(x)})}
     ms = mems_of(x) if mems is None else mems
     return {"id": name, "kind": "raster", "bufs": sorted({heap.bid(m) for m in ms}),
             "wr": bool(all(m.flags.writeable for m in ms)) if ms else False,
             "val": A.val_digest(A.compute(x.data)), "dtype": str(x.dtype),
             "coords": A.coords_pairs(x), "attrs": A.attrs_pairs(x), "dims": [str(d) for d in x.dims],
-            "shape": [int(s) for s in x.shape], "backend": A.backend_of(x.data), "name": str(x.name)}
+            "shape": [int(s) for s in x.shape], "backend": A.backend_of(x.data), "name": str(x.name),
+            "cbufs": sorted({heap.bid(m) for m in coord_arrays(x)})}
 
 
 EMPTY_RES = {"id": "", "kind": "none", "bufs": [], "wr": False, "val": "", "dtype": "", "coords": [], "attrs": [],
-             "dims": [], "shape": [], "backend": "", "name": "", "lazy": False}
+             "dims": [], "shape": [], "backend": "", "name": "", "lazy": False, "cbufs": [], "val2": ""}
 
 
 def result_arrays(res):
@@ -128,16 +144,19 @@ def res_record(name, res, heap, passthrough=()):
         lazy = not isinstance(res.data, np.ndarray)
         if lazy:
             arr = A.compute(res.data)
-            arrays = [arr]
+            arr2 = A.compute(res.data)              # a lazy result is computed twice: recomputing must give the same values
+            arrays = [arr] + coord_arrays(res)
             rec.update({"id": name, "kind": "raster", "bufs": [heap.bid(arr)], "wr": bool(arr.flags.writeable),
-                        "val": A.val_digest(arr), "dtype": str(res.dtype), "coords": A.coords_pairs(res),
+                        "val": A.val_digest(arr), "val2": A.val_digest(arr2),
+                        "cbufs": sorted({heap.bid(m) for m in coord_arrays(res)}), "dtype": str(res.dtype), "coords": A.coords_pairs(res),
                         "attrs": A.attrs_pairs(res), "dims": [str(d) for d in res.dims],
                         "shape": [int(s) for s in res.shape], "backend": A.backend_of(res.data), "name": str(res.name),
                         "lazy": True})
             return rec, arrays
         s = snap(name, res, heap)
         s["lazy"] = False
-        return s, mems_of(res)
+        s["val2"] = s["val"]
+        return s, mems_of(res) + coord_arrays(res)
     if isinstance(res, xr.Dataset):
         own = res[[k for k in res.data_vars if str(k) not in passthrough]]
         lazy = any(not isinstance(own[k].data, np.ndarray) for k in own.data_vars)
@@ -149,7 +168,8 @@ def res_record(name, res, heap, passthrough=()):
             arrays = mems_of(own)
             s = snap(name, own, heap)
         s["lazy"] = lazy
-        return s, arrays
+        s["val2"] = s["val"]
+        return s, arrays + coord_arrays(own)
     arrays = result_arrays(res)
     kind = "table" if isinstance(res, pd.DataFrame) or type(res).__module__.startswith("dask") else (
         "tuple" if isinstance(res, (tuple, list)) else "scalar")
@@ -163,7 +183,7 @@ def res_record(name, res, heap, passthrough=()):
     except Exception:
         val = "unhashable"
     rec.update({"id": "", "kind": kind, "bufs": sorted({heap.bid(m) for m in arrays}),
-                "wr": bool(arrays) and bool(any(m.flags.writeable for m in arrays)), "val": val})
+                "wr": bool(arrays) and bool(any(m.flags.writeable for m in arrays)), "val": val, "val2": val})
     return rec, arrays
 
 
@@ -215,7 +235,7 @@ def run_session(s):
               "cfg": [c.get("backend", ""), c.get("dtype", ""), c.get("layout", "")]}
         if c.get("args") is None:
             ins = A.build_inputs(entry, c["dtype"], c.get("layout", "C"), c.get("backend", "numpy"), c.get("seed", 0),
-                                 finite=bool(c.get("finite")), p=p)
+                                 finite=bool(c.get("finite")), p=p, single_chunk=bool(c.get("single_chunk")))
             names = []
             for role, x, _m in ins:
                 nm = "%d_%s" % (k, role)
@@ -282,6 +302,14 @@ def run_session(s):
             except Exception:
                 pass
         pv["attrs_dict_shared"] = bool(attr_shared)
+        # mutable VALUES inside attrs (lists / dicts) are shared between input and output by xarray's shallow attrs copy for
+        # every function (DataArray(..., attrs=agg.attrs)): logged, not judged
+        try:
+            pv["attrs_values_shared"] = bool(isinstance(res, xr.DataArray) and any(
+                any(v is w for w in store[n].attrs.values() if isinstance(w, (list, dict, np.ndarray)))
+                for n in names for v in res.attrs.values() if isinstance(v, (list, dict, np.ndarray))))
+        except Exception:
+            pv["attrs_values_shared"] = False
         pv["objs"] = [sn(n) for n in order]
         for m, sv in saved:
             m[...] = sv
